@@ -766,6 +766,66 @@ def width_rule(an: Analysis, rep, rule="R11.W", jumps_only=False):
             f"data (as constants of one table they are then treated as one repeated entry), and to_code() writes other bytes than from_code was given, without any exception")
 
 
+def r11q(an: Analysis, rep, rule="R11.Q"):
+    """An operand class without a position override (Freevar: the name only) is encoded by looking its value up in the table (`table.index(name)`): two
+    table entries with the same value cannot be told apart, the second is silently re-encoded as the first.  So the decoder must refuse a table
+    with repeated entries for such a class (compiler output has none; a hand-altered co_freevars can)."""
+    rep.rule(rule, "tables whose operands carry no position override are refused when an entry is repeated", 1)
+    from . import c02
+    it, _ = an.interp("from_code")
+    f, arms = c02.find_operand_decoder(an, (3, 10))
+    n = 0
+    for cat, node in arms:
+        for r in ast.walk(node):
+            if not (isinstance(r, ast.Return) and isinstance(r.value, ast.Call) and isinstance(r.value.func, ast.Name)):
+                continue
+            res = an.prog.resolve_global(f.module, r.value.func.id, f)
+            if not (res and res[0] == "class" and res[1].is_dataclass):
+                continue
+            ci = res[1]
+            if any(fl.name == "_index_override" for fl in ci.fields):
+                continue
+            subs = [x for x in ast.walk(r.value) if isinstance(x, ast.Subscript) and isinstance(x.value, ast.Name)]
+            if not subs:
+                continue
+            # which co_* table is indexed?
+            attrs = set()
+            for a in it.value_at(subs[0].value):
+                for o in it.origins(frozenset([a])):
+                    if o[0] == "src" and o[2]:
+                        attrs |= {st[1] for st in o[2] if st[0] == "a" and str(st[1]).startswith("co_")}
+            if not attrs:
+                raise AnalysisError(f"{f.qual}: which code attribute `{norm_src(subs[0].value)}` comes from is not recognised")
+            n += 1
+            # a rejection of repeated entries: a raise in the decode closure guarded by len(set(X)) != len(X) / len(X) != len(set(X)) with X from that attribute
+            guarded = False
+            for g in an.closure("from_code"):
+                for st in ast.walk(g.node):
+                    if not (isinstance(st, ast.If) and any(isinstance(b, ast.Raise) for b in st.body)):
+                        continue
+                    for c in ast.walk(st.test):
+                        if isinstance(c, ast.Compare) and len(c.ops) == 1 and isinstance(c.ops[0], (ast.NotEq, ast.Lt, ast.Gt)):
+                            sides = [c.left, c.comparators[0]]
+                            def _len_of(e):
+                                return e.args[0] if isinstance(e, ast.Call) and isinstance(e.func, ast.Name) and e.func.id == "len" and len(e.args) == 1 else None
+                            inner = [_len_of(x) for x in sides]
+                            if None in inner:
+                                continue
+                            sets = [x for x in inner if isinstance(x, ast.Call) and isinstance(x.func, ast.Name) and x.func.id in ("set", "frozenset") and len(x.args) == 1]
+                            plains = [x for x in inner if x not in sets]
+                            if len(sets) == 1 and len(plains) == 1 and ast.dump(sets[0].args[0]) == ast.dump(plains[0]):
+                                if any(attr in norm_src(plains[0]) for attr in attrs) or any(
+                                        o[0] == "src" and o[2] and any(stp[0] == "a" and stp[1] in attrs for stp in o[2]) for a in an.interp("from_code")[0].value_at(plains[0])
+                                        for o in an.interp("from_code")[0].origins(frozenset([a]))):
+                                    guarded = True
+            rep.add(rule, f"{f.qual}::{ci.name} operands: repeated entries of {sorted(attrs)[0]} are refused", guarded, loc(f.module, r),
+                    f"from_code raises when {sorted(attrs)[0]} holds the same entry twice" if guarded else
+                    f"`{norm_src(r.value)[:60]}` keeps only the value of the entry, and the encoder finds it again with `.index(...)`: with a repeated entry (hand-altered co_freevars=('a', 'a')) "
+                    f"the second one is re-encoded as the first - LOAD_DEREF 1 becomes LOAD_DEREF 0, the function computes something else, and nothing is raised")
+    if n == 0:
+        rep.add(rule, "every operand class that names a table entry carries a position override", True, "code_data/__init__.py", "no operand class without _index_override indexes a table", nontrivial=False)
+
+
 def r117(an: Analysis, rep):
     """The decoder rejects argument names on non-function code through the truthiness of Args: that is only a guard if len(args) counts every kind."""
     it, _ = an.interp("from_code")
@@ -894,6 +954,7 @@ def run(an: Analysis, rep):
     rep.run(r117, an, rep)
     rep.run(r119, an, rep)
     rep.run(width_rule, an, rep)
+    rep.run(r11q, an, rep)
     from . import c10, c13
     from .common import SharedRules as _SR
     rep.run(c10.r106_progress, an, rep, "R11.H")
